@@ -21,7 +21,7 @@ inline std::vector<std::pair<std::string, Files>> corpus_FD() {
       {"PROGRAM f IN a OUT r DO r := a + 1 END x0 := RUN f WITH RUN f WITH 2 END END ; WHILE x0 != 0 DO x0 := x0 - 1 END", {}},
       {"INCLUDE \"lib\" x0 := 1 ; IF x0 THEN x1 := 1 ELSE x1 := 2 END ; IF 0 THEN x2 := 1 ELSE NOP END", {{"lib", lib}}},
       // two different macros with temporaries, one used inside the other's slot
-      {"INCLUDE \"lib2\" x0 := 1 ; x1 := 3 ; SAVE x1 IF x0 THEN x1 := 5 ELSE x1 := 6 END ; x2 := x1 RESTORE ; IF x2 THEN SAVE x0 x0 := 0 RESTORE ELSE x3 := 1 END ; x3 := x1", {{"lib2", "DEFINE IF <V> THEN <P> ELSE <P> END AS #0 := 0; #1 := 1; #2 := $0; LOOP #2 DO #0 := 1; #1 := 0 END; LOOP #0 DO $1 END; LOOP #1 DO $2 END ENDDEF DEFINE SAVE <ID> <P> RESTORE AS #0 := $0 ; $1 ; $0 := #0 ENDDEF"}}},
+      {"INCLUDE \"lib2\" x0 := 1 ; x1 := 3 ; SAVE x1 IF x0 THEN x1 := 5 ELSE x1 := 6 END ; x2 := x1 RESTORE ; IF x2 THEN SAVE x0 x0 := 0 RESTORE ELSE x3 := 1 END ; x3 := x1", {{"lib2", "DEFINE IF <V> THEN <P> ELSE <P> END AS #0 := 0; #1 := 1; #2 := $0; LOOP #2 DO #0 := 1; #1 := 0 END; LOOP #0 DO $1 END; LOOP #1 DO $2 END ENDDEF\nDEFINE SAVE <ID> <P> RESTORE AS #0 := $0 ; $1 ; $0 := #0 ENDDEF"}}},
       {"PROGRAM f DO STOP END x0 := 1 ; x1 := RUN f WITH END ; x2 := 2", {}},
       // user macros that match the *output* of the built-in +/- sugar and move captured tokens to statement positions
       {"DEFINE PRIO 5 SET RUN <ID> WITH <A> END AS $0 := 7 ENDDEF DEFINE PRIO 4 <ID> <- <V> AS $0 := $1 ENDDEF SET x0 + 1 ; x1 <- 2 ; SET x1 - 1 ; x2 := 3", {}},
